@@ -91,6 +91,10 @@ def make_project(seed, root):
             "warn": False, "quiet": True}
     if rng.random() < 0.5:
         opts["page_dir"] = make_pages(root, rng, rng.randint(0, 2))
+    if rng.random() < 0.35:
+        opts["hide_undoc"] = True  # documented entities inside undocumented (hidden) parents
+    if rng.random() < 0.25:
+        opts["display"] = rng.choice([["private"], ["protected", "private"], ["public", "private"]])
     if opts["graph"] and rng.random() < 0.3:
         opts["graph_maxnodes"] = rng.choice([1, 2, 3])
         opts["graph_maxdepth"] = rng.choice([1, 2])
@@ -153,7 +157,7 @@ def main():
         PID,
         rule="case = generated project of a shape class {random 1-4 files, single file, no modules, only a program, only block data + "
         "program, modules+submodules only, two programs, 5 files} x random option vector {incl_src, search, graph (+small maxnodes/"
-        "maxdepth), proc_internals, display subset/none, sort, source, page_dir with 0-2 nesting levels, summary/author, extra file "
+        "maxdepth), proc_internals, hide_undoc, display subsets with and without public / none, sort, source, page_dir with 0-2 nesting levels, summary/author, extra file "
         "type}; complete run in a forked child; every URL attribute of every page (incl. inline SVG) and every search record is "
         "checked. Non-trivial: >=3 pages at >=2 depths; distinct by (shape, option vector, page set).",
         assumptions=["URLs with a scheme, `//`, mailto:, javascript:, data: are external and not followed (CDN reachability is out of scope)",
